@@ -7,6 +7,9 @@
      reply complete:       self.defer.callback(resp) (suppressed by Twisted when d was cancelled);
                            self.command = None; _maybe_issue_command()
      connectionLost:       outstanding = [command] + commands; both cleared; for each: if not d.called: errback
+     when_disconnected:    SingleObserver.when_fired - a fresh Deferred, fired at once when the loss has happened
+     connectionLost:       FIRST _when_disconnected.fire(failure) - the callbacks of the observers run, and may
+                           ask again or submit commands -, THEN the outstanding list is taken
    The Deferreds of distinct commands are distinct objects, so the loop's `d.called` tests are the flags
    at the start of the loop (the harness's errbacks cancel nothing). *)
 From Coq Require Import List Bool Arith NArith Lia.
@@ -14,8 +17,12 @@ From TxVerif Require Import Spec.C03Cancel.
 Import ListNotations.
 Open Scope N_scope.
 
-Record mq := { m_cur : option N; m_q : list N; m_called : list N; m_lost : bool; m_next : N }.
-Definition mq_init : mq := {| m_cur := None; m_q := []; m_called := []; m_lost := false; m_next := 0 |}.
+(* m_obs: the Deferreds handed out by when_disconnected() and not fired yet (SingleObserver._observers),
+   each with what the caller's callback does; m_nobs: how many were handed out *)
+Record mq := { m_cur : option N; m_q : list N; m_called : list N; m_lost : bool; m_next : N;
+               m_obs : list (N * wbeh); m_nobs : N }.
+Definition mq_init : mq :=
+  {| m_cur := None; m_q := []; m_called := []; m_lost := false; m_next := 0; m_obs := []; m_nobs := 0 |}.
 
 Definition maybe_issue (s : mq) : mq * list qev :=
   match m_cur s with
@@ -25,23 +32,41 @@ Definition maybe_issue (s : mq) : mq * list qev :=
       | [] => (s, [])
       | x :: q' =>
           if m_lost s then
-            ({| m_cur := None; m_q := q'; m_called := x :: m_called s; m_lost := true; m_next := m_next s |},
+            ({| m_cur := None; m_q := q'; m_called := x :: m_called s; m_lost := true; m_next := m_next s;
+                m_obs := m_obs s; m_nobs := m_nobs s |},
              [QRes x QDisc])
           else
-            ({| m_cur := Some x; m_q := q'; m_called := m_called s; m_lost := false; m_next := m_next s |},
+            ({| m_cur := Some x; m_q := q'; m_called := m_called s; m_lost := false; m_next := m_next s;
+                m_obs := m_obs s; m_nobs := m_nobs s |},
              [QWrote x])
       end
   end.
 
+(* queue_command as the application calls it *)
+Definition submit (s : mq) : mq * list qev :=
+  maybe_issue {| m_cur := m_cur s; m_q := m_q s ++ [m_next s]; m_called := m_called s;
+                 m_lost := m_lost s; m_next := m_next s + 1; m_obs := m_obs s; m_nobs := m_nobs s |}.
+
+(* the callback of observer (w, b) runs; the disconnect observer has fired already (m_lost = true is set by
+   the caller: SingleObserver.fire stores the value before it walks the list, so when_fired() inside a
+   callback is answered at once and _maybe_issue_command fails a fresh command at once unless one is in flight) *)
+Definition run_cb (acc : mq * list qev) (wb : N * wbeh) : mq * list qev :=
+  let '(s, ev) := acc in
+  match snd wb with
+  | WPlain => (s, ev ++ [QNote (fst wb)])
+  | WNested =>
+      ({| m_cur := m_cur s; m_q := m_q s; m_called := m_called s; m_lost := m_lost s; m_next := m_next s;
+          m_obs := m_obs s; m_nobs := m_nobs s + 1 |}, ev ++ [QNote (fst wb); QNote (m_nobs s)])
+  | WSubmit => let '(s2, e2) := submit s in (s2, ev ++ [QNote (fst wb)] ++ e2)
+  end.
+
 Definition m_step (s : mq) (o : qop) : option (mq * list qev) :=
   match o with
-  | QSubmit =>
-      Some (maybe_issue {| m_cur := m_cur s; m_q := m_q s ++ [m_next s]; m_called := m_called s;
-                           m_lost := m_lost s; m_next := m_next s + 1 |})
+  | QSubmit => Some (submit s)
   | QCancel k =>
       if (k <? m_next s) && negb (memN k (m_called s)) then
         Some ({| m_cur := m_cur s; m_q := m_q s; m_called := k :: m_called s; m_lost := m_lost s;
-                 m_next := m_next s |}, [QRes k QCancelled])
+                 m_next := m_next s; m_obs := m_obs s; m_nobs := m_nobs s |}, [QRes k QCancelled])
       else Some (s, [])
   | QReply =>
       if m_lost s then None else
@@ -50,15 +75,28 @@ Definition m_step (s : mq) (o : qop) : option (mq * list qev) :=
       | Some c =>
           let e1 := if memN c (m_called s) then [] else [QRes c QOk] in
           let '(s2, e2) := maybe_issue {| m_cur := None; m_q := m_q s; m_called := c :: m_called s;
-                                          m_lost := false; m_next := m_next s |} in
+                                          m_lost := false; m_next := m_next s;
+                                          m_obs := m_obs s; m_nobs := m_nobs s |} in
           Some (s2, e1 ++ e2)
       end
+  | QWatch b =>
+      if m_lost s then
+        Some (run_cb ({| m_cur := m_cur s; m_q := m_q s; m_called := m_called s; m_lost := true;
+                         m_next := m_next s; m_obs := []; m_nobs := m_nobs s + 1 |}, []) (m_nobs s, b))
+      else
+        Some ({| m_cur := m_cur s; m_q := m_q s; m_called := m_called s; m_lost := false; m_next := m_next s;
+                 m_obs := m_obs s ++ [(m_nobs s, b)]; m_nobs := m_nobs s + 1 |}, [])
   | QLose =>
       if m_lost s then None else
-      let outstanding := (match m_cur s with Some c => [c] | None => [] end) ++ m_q s in
-      let out := filter (fun k => negb (memN k (m_called s))) outstanding in
-      Some ({| m_cur := None; m_q := []; m_called := out ++ m_called s; m_lost := true; m_next := m_next s |},
-            map (fun k => QRes k QDisc) out)
+      (* _when_disconnected.fire: the stored value first, then every observer in order *)
+      let '(s1, ev) := fold_left run_cb (m_obs s)
+                         ({| m_cur := m_cur s; m_q := m_q s; m_called := m_called s; m_lost := true;
+                             m_next := m_next s; m_obs := []; m_nobs := m_nobs s |}, []) in
+      let outstanding := (match m_cur s1 with Some c => [c] | None => [] end) ++ m_q s1 in
+      let out := filter (fun k => negb (memN k (m_called s1))) outstanding in
+      Some ({| m_cur := None; m_q := []; m_called := out ++ m_called s1; m_lost := true; m_next := m_next s1;
+               m_obs := []; m_nobs := m_nobs s1 |},
+            ev ++ map (fun k => QRes k QDisc) out)
   end.
 
 Fixpoint m_run (s : mq) (ops : list qop) : option (list (list qev)) :=
